@@ -49,6 +49,23 @@ Module Ex.
     end.
   Proof. vm_compute. reflexivity. Qed.
 
+  (* slash-star-slash is NOT a complete comment: the star of the opener does not close it; the first
+     comment runs to the next star-slash, the last one is unterminated *)
+  Example lex_slash_star_slash :
+    match tokens (src "/*/ a /*/ b /*/") with
+    | OK ts => map tok_view ts = [(T_COMMENT, s2r "/*/ a /*/", 1, 1); (T_IDENT, s2r "b", 1, 11);
+                                   (T_COMMENT, s2r "/*/", 1, 13); (T_EOF, [], 1, 16)]%N
+    | _ => False
+    end.
+  Proof. vm_compute. reflexivity. Qed.
+
+  Example lex_empty_block_comment :
+    match tokens (src "/**/a") with
+    | OK ts => map tok_view ts = [(T_COMMENT, s2r "/**/", 1, 1); (T_IDENT, s2r "a", 1, 5); (T_EOF, [], 1, 6)]%N
+    | _ => False
+    end.
+  Proof. vm_compute. reflexivity. Qed.
+
   (* designates, by hand, for the STRING token on the second line of: a, LF, two blanks, quote, bc *)
   Example designates_string_line2 :
     designates (dec_all (src "a") ++ [10%N] ++ dec_all (src "  ""bc"))%list
